@@ -11,7 +11,10 @@ impl Number {
     pub(super) fn as_integer(&self) -> Option<i32> {
         match self {
             Number::Int(n) => Some(*n),
-            Number::Float(n) => Some(*n as i32),
+            // Truncates, as before, but only when the result fits: `as` would
+            // silently saturate an out-of-range float (and turn NaN into 0).
+            Number::Float(n) if (-2147483648.0..2147483648.0).contains(n) => Some(*n as i32),
+            Number::Float(_) => None,
         }
     }
 
